@@ -293,6 +293,13 @@ Definition rewrite_delegations (g : graph) (gid : N) : graph * option exn :=
   | _ => rewrite_nodes gid (node_ids g) g
   end.
 
+(* rewrite_delegations on the graph stored under gid: every read and write is addressed to that graph id *)
+Definition st_rewrite_delegations (st : store) (gid key : N) : store * option exn :=
+  match sget st gid with
+  | None => (st, Some EQuery)
+  | Some g => let r := rewrite_delegations g key in (supd st gid (fun _ => fst r), snd r)
+  end.
+
 (* what "changes only the key" means *)
 Definition rekey_map (gid : N) (o : option dmap) : option dmap :=
   option_map (map (fun p => (gid, snd p))) o.
